@@ -1,5 +1,5 @@
 SPECIFICATION Spec
 CONSTANTS
-  Alphabet = {42, 45, 46, 47, 48, 57, 58, 64, 65, 90, 91, 95, 96, 97, 122, 123, 32, 10, 233, 65313, 0}
+  Alphabet = {42, 45, 46, 47, 48, 57, 58, 64, 65, 90, 91, 95, 96, 97, 122, 123, 32, 10, 233, 65313, 0, 8490, 383, 304, 305}
   MaxShort = 2
 INVARIANTS V3Shape Emit
